@@ -1,4 +1,5 @@
 import Pacti.Proofs.Elim
+import Pacti.Proofs.Tactic4
 /-!
 # C04 — variable elimination is implication-preserving for every tactic order
 
@@ -8,8 +9,8 @@ import Pacti.Proofs.Elim
 
 The loop theorems are stated for an ARBITRARY tactic table `tac` and ask soundness only of the tactics that occur
 in the order (`TacSound tac k`): they hold for every list length, every context, every order, both flags.
-`driver_tactics_sound` discharges `TacSound` for the modelled tactics 2, 5 and 6 of the real table.
-Tactics 1 and 3 (Kaykobad context reduction) and 4 (substitution chains) are modelled and compared with the
+`driver_tactics_sound` discharges `TacSound` for the modelled tactics 2, 4, 5 and 6 of the real table.
+Tactics 1 and 3 (Kaykobad context reduction) are modelled and compared with the
 implementation on every run; their soundness is established per run by the certified judge, not by a theorem —
 `*_partial` in the names below marks that restriction.
 -/
@@ -61,6 +62,16 @@ theorem tactic5_sound (O : Oracle) (hO : O.Certified) (t : PTerm) (H : TL) (xs :
     ∀ v, TL.holds H v → (if refine then (r.holds v → t.holds v) else (t.holds v → r.holds v)) :=
   Elim.tactic5_sound O hO t H xs refine active r h
 
+/-- the sign `isolate_variable` gives the constant, as read off the current source, is the correct one -/
+theorem isolate_sign_ok : Gen.isolateSign = -1 := by unfold Gen.isolateSign; rfl
+
+/-- tactic 4 (one-variable substitution chains through the context, any depth): every result dominates the term as an
+    expression wherever the context holds, hence refines it; when relaxing the tactic declines -/
+theorem tactic4_sound (t : PTerm) (H : TL) (xs : List Var) (refine : Bool) (r : PTerm)
+    (h : tactic4 (H.length + 1) t H xs refine [] = .ok (some r)) :
+    ∀ v, TL.holds H v → (if refine then (r.holds v → t.holds v) else (t.holds v → r.holds v)) :=
+  Elim.tactic4_sound isolate_sign_ok t H xs refine r h
+
 /-- the trivial tactic -/
 theorem tactic6_sound (O : Oracle) (hint : PTerm → TL → Bool → Option (List Nat)) : TacSound (tactic O false hint) 6 := by
   intro t H xs refine r h v _
@@ -68,13 +79,14 @@ theorem tactic6_sound (O : Oracle) (hint : PTerm → TL → Bool → Option (Lis
   injection h with h; injection h with h; subst h
   split <;> exact id
 
-/-- the real tactic table is sound at 2, 5 and 6, for every certified oracle and every hint function -/
+/-- the real tactic table is sound at 2, 4, 5 and 6, for every certified oracle and every hint function -/
 theorem driver_tactics_sound (O : Oracle) (hO : O.Certified) (hint : PTerm → TL → Bool → Option (List Nat)) :
-    ∀ k ∈ [2, 5, 6], TacSound (tactic O false hint) k := by
+    ∀ k ∈ [2, 4, 5, 6], TacSound (tactic O false hint) k := by
   intro k hk
   simp only [List.mem_cons, List.mem_nil_iff, or_false] at hk
-  rcases hk with rfl | rfl | rfl
+  rcases hk with rfl | rfl | rfl | rfl
   · intro t H xs refine r h; exact Elim.tactic2_sound O hO t H xs refine r h
+  · intro t H xs refine r h; exact Elim.tactic4_sound isolate_sign_ok t H xs refine r h
   · intro t H xs refine r h; exact Elim.tactic5_sound O hO t H xs refine _ r h
   · exact tactic6_sound O hint
 
